@@ -2,6 +2,7 @@
 the records successfully submitted (DESIGN §5 C07)."""
 import io
 import json
+import os
 import random
 
 import fastavro
@@ -17,6 +18,33 @@ from props.container_common import CODECS, spec_parse, expected_meta, render, Pa
 THEOREMS = ["c07_history", "c07_flush_reads_back", "c07_failed_write_contributes_nothing", "c07_header_never_changes",
             "c07_reopen_resumes", "c07_reopen_is_flush", "c07_appendable_table", "Tables.appendable_table"]
 TARGETS = ["Properties.TablesContainer", "Properties.C07"]
+
+
+class FileStream:
+    """a real, buffered file (`open(path, "w+b")`); `getvalue()` is what ANOTHER handle on the file sees — the bytes that
+    have actually reached the file — while the writer's handle stays open"""
+
+    def __init__(self):
+        import tempfile
+        fd, self.path = tempfile.mkstemp(prefix="verif_c07_", suffix=".avro")
+        os.close(fd)
+        self._f = open(self.path, "w+b")
+
+    def __getattr__(self, name):
+        return getattr(self._f, name)
+
+    def getvalue(self):
+        with open(self.path, "rb") as other:
+            return other.read()
+
+    def discard(self):
+        try:
+            self._f.close()
+        finally:
+            try:
+                os.remove(self.path)
+            except OSError:
+                pass
 
 
 def record_schema(g):
@@ -76,6 +104,51 @@ def make_history(g, n):
     return ops
 
 
+def append_to_several_files(run):
+    """appending, in one process, to several containers whose schemas have the same parsing canonical form but differ in
+    what the canonical form drops (field defaults, logical types): every file is continued under ITS header's schema"""
+    import datetime
+    import decimal
+    pairs = {
+        "defaults": ({"type": "record", "name": "Order", "fields": [{"name": "id", "type": "long"}, {"name": "qty", "type": "int", "default": 1}]},
+                     {"type": "record", "name": "Order", "fields": [{"name": "id", "type": "long"}, {"name": "qty", "type": "int", "default": 12}]},
+                     [{"id": 1}, {"id": 2, "qty": 5}], [{"id": 3}]),
+        "logical-vs-plain": ({"type": "record", "name": "Ev", "fields": [{"name": "at", "type": {"type": "long", "logicalType": "timestamp-millis"}}]},
+                             {"type": "record", "name": "Ev", "fields": [{"name": "at", "type": "long"}]},
+                             [{"at": datetime.datetime(2021, 4, 6, 12, 0, tzinfo=datetime.timezone.utc)}], [{"at": 1617710400000}]),
+        "decimal-scale": ({"type": "record", "name": "P", "fields": [{"name": "v", "type": {"type": "bytes", "logicalType": "decimal", "precision": 9, "scale": 2}}]},
+                          {"type": "record", "name": "P", "fields": [{"name": "v", "type": {"type": "bytes", "logicalType": "decimal", "precision": 9, "scale": 0}}]},
+                          [{"v": decimal.Decimal("5.25")}], [{"v": decimal.Decimal("5")}]),
+    }
+
+    def alone(schema, first, more):
+        # ground truth without the append path: all the records submitted through one writer created with the schema
+        fo = io.BytesIO()
+        fastavro.writer(fo, json.loads(json.dumps(schema)), list(first) + list(more))
+        return [canon(to_wire(x)) for x in fastavro.reader(io.BytesIO(fo.getvalue()))]
+
+    for name, (s1, s2, d1, d2) in pairs.items():
+        for order in ("1-then-2", "2-then-1"):
+            case = {"pair": name, "schemas": [s1, s2], "order": order, "tags": ["append-to-several-files"]}
+            run.count(case, True, ["append-to-several-files"])
+            try:
+                want1, want2 = alone(s1, d1, d1), alone(s2, d2, d2)
+                f1, f2 = io.BytesIO(), io.BytesIO()
+                fastavro.writer(f1, json.loads(json.dumps(s1)), d1)
+                fastavro.writer(f2, json.loads(json.dumps(s2)), d2)
+                for which in (("1", "2") if order == "1-then-2" else ("2", "1")):
+                    fastavro.writer(f1 if which == "1" else f2, None, d1 if which == "1" else d2)
+                got1 = [canon(to_wire(x)) for x in fastavro.reader(io.BytesIO(f1.getvalue()))]
+                got2 = [canon(to_wire(x)) for x in fastavro.reader(io.BytesIO(f2.getvalue()))]
+            except Exception as e:  # noqa
+                run.fail(case, "appending to two files with like schemas raised %r" % (e,), kind="oracle")
+                continue
+            if got1 != want1 or got2 != want2:
+                case["read_back"], case["expected"] = [got1, got2], [want1, want2]
+                run.fail(case, "after appending to two files whose schemas differ only in defaults / logical types, a file does not read "
+                               "back as the records submitted to it", kind="oracle")
+
+
 def run(tier, seed):
     run = Run("C07", tier, seed)
     run.rule = ("random histories (8-40 operations) over {write small/large/zero-field record, write a record that fails at "
@@ -123,7 +196,8 @@ def run(tier, seed):
     for hc in hist_cases:
         g, s, r = hc["g"], hc["schema"], hc["g"].r
         ps = fastavro.parse_schema(json.loads(json.dumps(s)))
-        fo = io.BytesIO()
+        hc["stream"] = "real-file" if r.random() < 0.3 else "BytesIO"
+        fo = FileStream() if hc["stream"] == "real-file" else io.BytesIO()
         kw = dict(codec=hc["codec"], sync_interval=hc["interval"], sync_marker=hc["sync"], validator=hc["validator"])
         if hc["meta"] is not None:
             kw["metadata"] = dict(hc["meta"])
@@ -250,7 +324,14 @@ def run(tier, seed):
                 why = "operation %s of the history raised %r" % (op[0], e)
                 break
         hc["why"], hc["trace"] = why, trace
+        if hc["stream"] == "real-file":
+            try:
+                fo.flush()
+            except Exception:  # noqa
+                pass
         hc["data"] = fo.getvalue()
+        if hc["stream"] == "real-file":
+            fo.discard()
         hc["mops"] = mops
         try:
             parsed = spec_parse(hc["data"])
@@ -265,7 +346,7 @@ def run(tier, seed):
     for hc, mo in zip(hist_cases, mouts):
         kinds = sorted(set(t[0] + (":" + t[1] if t[0] == "write" else "") for t in hc["trace"]))
         case = {"schema": hc["schema"], "codec": hc["codec"], "interval": hc["interval"], "validator": hc["validator"],
-                "history": hc["trace"][:60], "tags": kinds}
+                "history": hc["trace"][:60], "stream": hc.get("stream"), "tags": kinds + ["stream:" + str(hc.get("stream"))]}
         run.count(case, len(kinds) >= 2, kinds + ["codec:" + hc["codec"]])
         run.cov["traces_validated_against_impl"] += 1
         if hc["why"]:
@@ -284,4 +365,5 @@ def run(tier, seed):
             if payload != mpayload or hc["data"][:hc["parsed"]["header_len"]] != bytes.fromhex(mo["header"]):
                 case["impl_len"], case["model_len"] = len(hc["data"]), len(exp)
                 run.fail(case, "correspondence: the stream differs from the model's prediction", kind="correspondence")
+    append_to_several_files(run)
     return run.finish()
